@@ -42,10 +42,13 @@ pub struct Stats {
     pub counters: BTreeMap<String, u64>,
     pub samples: Vec<String>,
     pub backends: BTreeMap<String, u64>,
+    /// non-trivial inputs counted by enumerating runners (distinct by construction)
+    pub nontrivial_counted: u64,
 }
 
 impl Stats {
-    fn merge(&mut self, o: Stats) {
+    pub fn merge(&mut self, o: Stats) {
+        self.nontrivial_counted += o.nontrivial_counted;
         self.evaluations += o.evaluations;
         self.steps += o.steps;
         self.nontrivial.extend(o.nontrivial);
@@ -71,7 +74,7 @@ impl Stats {
             *self.backends.entry(k).or_default() += v;
         }
         for s in o.samples {
-            if self.samples.len() < 4 {
+            if self.samples.len() < 8 {
                 self.samples.push(s);
             }
         }
@@ -326,7 +329,7 @@ pub fn evidence_json(def: &PropDef, tier: Tier, seed: u64, r: &RunResult, violat
     let mut coverage = serde_json::json!({
         "evaluations": st.evaluations,
         "distinct_cases": st.distinct.len(),
-        "distinct_nontrivial": st.nontrivial.len(),
+        "distinct_nontrivial": st.nontrivial.len() as u64 + st.nontrivial_counted,
         "rule": def.rule,
         "samples": samples,
         "steps_executed": st.steps,
